@@ -33,14 +33,16 @@ Why(t, e) ==
        \cup (IF ClIsDef(e.toks, e.got) THEN {} ELSE {"IsDefOK"})
   ELSE {"UnknownEvent"}
 
-TInit == /\ tid \in 1..Len(Traces) /\ l = 1
+VARIABLE nbad     \* events of this trace that failed so far (every event is judged, not only the first failure)
+TInit == /\ tid \in 1..Len(Traces) /\ l = 1 /\ nbad = 0
          /\ stmts = <<>> /\ mods = {} /\ tabs = FALSE /\ final = TRUE /\ lay = <<>> /\ out = <<>>
 Ev == Traces[tid][l]
 TNext == /\ l <= Len(Traces[tid])
-         /\ (Why(tid, Ev) = {}) = TRUE
          /\ l' = l + 1
+         /\ nbad' = IF Why(tid, Ev) = {} THEN nbad ELSE nbad + 1
          /\ UNCHANGED <<tid, stmts, mods, tabs, final, lay, out>>
+\* always TRUE; prints the verdicts
 Verdict ==
-  IF l = Len(Traces[tid]) + 1 THEN PrintT(<<"ACCEPT", tid>>)
+  IF l = Len(Traces[tid]) + 1 THEN (nbad > 0 \/ PrintT(<<"ACCEPT", tid>>))
   ELSE Why(tid, Ev) = {} \/ PrintT(<<"REJECT", tid, l, Why(tid, Ev)>>)
 =============================================================================
